@@ -25,7 +25,7 @@ WhyWrite(rec) ==
       ELSE IF \E f \in 1..F : ~FrameWellFormed(rec.file[f], n) THEN "RowsByIdWithCn"
       ELSE LET whys == UNION { LET T == DT(cfg, f) IN
                                {IF AmbiguousT(T, i) THEN ""
-                                ELSE WhyList(i, rec.file[f][i].ids, ExpectedT(T, cfg.types, cfg.sharp, i, rec.spec)) : i \in 1..n}
+                                ELSE WhyList(i, rec.file[f][i].ids, ExpectedT(T, TypesAt(cfg, f), cfg.sharp, i, rec.spec)) : i \in 1..n}
                                : f \in 1..F } \ {""}
            IN  IF whys = {} THEN "" ELSE CHOOSE w \in whys : TRUE
 
